@@ -2,6 +2,8 @@
 package sim
 
 import (
+	"bufio"
+	"encoding/json"
 	"fmt"
 	"math/rand"
 	"os"
@@ -78,3 +80,76 @@ func TestFamily(t *testing.T) {
 }
 
 var _ = time.Now
+
+// TestL2 replays TLC-generated single-node cases (VERIF_CASES, one JSON per "CASE|" line) and writes all
+// traces, concatenated, to VERIF_OUT/l2-<shard>.ndjson. VERIF_SHARD / VERIF_SHARDS split the cases.
+func TestL2(t *testing.T) {
+	in := os.Getenv("VERIF_CASES")
+	if in == "" {
+		t.Skip("VERIF_CASES not set")
+	}
+	out := os.Getenv("VERIF_OUT")
+	_ = os.MkdirAll(out, 0o755)
+	shard, shards := envInt("VERIF_SHARD", 0), envInt("VERIF_SHARDS", 1)
+	stride, seed := envInt("VERIF_STRIDE", 1), envInt("VERIF_SEED", 1)
+	fh, err := os.Open(in)
+	if err != nil {
+		t.Fatal(err)
+	}
+	defer fh.Close()
+	w, err := os.Create(filepath.Join(out, fmt.Sprintf("l2-%02d.ndjson", shard)))
+	if err != nil {
+		t.Fatal(err)
+	}
+	defer w.Close()
+	bw := bufio.NewWriterSize(w, 1<<20)
+	defer bw.Flush()
+	enc := json.NewEncoder(bw)
+	sc := bufio.NewScanner(fh)
+	sc.Buffer(make([]byte, 1<<20), 1<<24)
+	k, done := 0, 0
+	for sc.Scan() {
+		ln := strings.TrimSpace(sc.Text())
+		if !strings.HasPrefix(ln, `"CASE|`) {
+			continue
+		}
+		k++
+		if stride > 1 && (k+seed)%stride != 0 {
+			continue
+		}
+		if (k/stride)%shards != shard {
+			continue
+		}
+		var s string
+		if err := json.Unmarshal([]byte(ln), &s); err != nil {
+			t.Fatal(err)
+		}
+		var cs L2Case
+		if err := json.Unmarshal([]byte(s[5:]), &cs); err != nil {
+			t.Fatalf("case: %v: %s", err, s)
+		}
+		cs.ID = k
+		var c *Cluster
+		func() {
+			defer func() {
+				if p := recover(); p != nil {
+					if c != nil {
+						c.Tr.Emit("leak", "", M{"msg": fmt.Sprint(p)})
+					}
+				}
+			}()
+			synctest.Test(t, func(t *testing.T) {
+				c = RunL2Case(t, &cs)
+				c.Finish()
+			})
+		}()
+		for _, l := range c.Tr.Lines() {
+			if l["ev"] == "reset" {
+				l["case"] = cs.ID
+			}
+			_ = enc.Encode(l)
+		}
+		done++
+	}
+	fmt.Printf("L2 cases=%d done=%d\n", k, done)
+}
